@@ -30,6 +30,10 @@ pub struct Shared {
     pub next: Mutex<Option<ActorWeak<RaceActor>>>,
     /// ring experiment: the handlers of all participants line up here before they ask
     pub meet: Mutex<Option<(Arc<AtomicUsize>, usize)>>,
+    /// metrics experiment: longest time demonstrably spent inside a `Work` handler (ns)
+    pub max_inner_ns: std::sync::atomic::AtomicU64,
+    /// set by the first on_run invocation (on_start is over, the lifecycle holds no strong reference)
+    pub ran: AtomicBool,
 }
 
 pub struct RaceActor {
@@ -42,6 +46,8 @@ pub struct Item(pub u32);
 pub struct Hold;
 pub struct Start;
 pub struct Poke;
+/// busy for the given number of microseconds (really), measured from inside
+pub struct Work(pub u64);
 
 pub fn reply_of(id: u32) -> u64 {
     id as u64 * 7 + 1
@@ -54,6 +60,7 @@ impl Actor for RaceActor {
         Ok(RaceActor { sh: a.0, gate: a.1, run_mode: a.2 })
     }
     async fn on_run(&mut self, _w: &ActorWeak<Self>) -> Result<bool, String> {
+        self.sh.ran.store(true, Ordering::Release);
         if self.run_mode == 1 {
             tokio::task::yield_now().await;
             Ok(true)
@@ -100,6 +107,19 @@ impl Message<Start> for RaceActor {
     }
 }
 
+impl Message<Work> for RaceActor {
+    type Reply = u64;
+    async fn handle(&mut self, m: Work, _r: &ActorRef<Self>) -> u64 {
+        let t0 = Instant::now();
+        while (t0.elapsed().as_micros() as u64) < m.0 {
+            std::hint::spin_loop();
+        }
+        let ns = t0.elapsed().as_nanos() as u64;
+        self.sh.max_inner_ns.fetch_max(ns, Ordering::AcqRel);
+        ns
+    }
+}
+
 impl Message<Poke> for RaceActor {
     type Reply = u64;
     async fn handle(&mut self, _m: Poke, _r: &ActorRef<Self>) -> u64 {
@@ -129,7 +149,7 @@ impl Rng {
 }
 
 fn spawn_actor(rt: &tokio::runtime::Runtime, cap: usize, run_mode: u8, spin: u32) -> (ActorRef<RaceActor>, tokio::task::JoinHandle<ActorResult<RaceActor>>, Arc<Shared>, tokio::sync::watch::Sender<bool>) {
-    let sh = Arc::new(Shared { handled: Mutex::new(vec![]), on_stop: Mutex::new(vec![]), spin, next: Mutex::new(None), meet: Mutex::new(None) });
+    let sh = Arc::new(Shared { handled: Mutex::new(vec![]), on_stop: Mutex::new(vec![]), spin, next: Mutex::new(None), meet: Mutex::new(None), max_inner_ns: std::sync::atomic::AtomicU64::new(0), ran: AtomicBool::new(false) });
     let (tx, rx) = tokio::sync::watch::channel(false);
     let _g = rt.enter();
     let (r, jh) = rsactor::spawn_with_mailbox_capacity::<RaceActor>((sh.clone(), rx, run_mode), cap);
@@ -152,6 +172,16 @@ pub struct Bad {
 
 fn bad(prop: &'static str, kind: &'static str, detail: String) -> Option<Bad> {
     Some(Bad { prop, kind, detail })
+}
+
+thread_local! {
+    /// clause violations of the current round besides the one it returns (one observation can break
+    /// the clauses of two properties, e.g. on_stop(killed=true) and a result with killed=true)
+    static ALSO: std::cell::RefCell<Vec<Bad>> = const { std::cell::RefCell::new(Vec::new()) };
+}
+
+fn also(prop: &'static str, kind: &'static str, detail: String) {
+    ALSO.with(|a| a.borrow_mut().push(Bad { prop, kind, detail }));
 }
 
 #[derive(Clone, Copy, Debug, PartialEq)]
@@ -281,11 +311,14 @@ fn drop_race_round(rt: &tokio::runtime::Runtime, rng: &mut Rng, cfg: &mut String
             Some(Err(e)) => return bad("C07", "not-graceful", format!("actor {i}: every reference dropped; JoinHandle reported {e}")),
             Some(Ok(res)) => {
                 let stops = sh.on_stop.lock().unwrap().clone();
+                if stops != vec![false] && (!res.is_completed() || res.was_killed()) {
+                    also("C04", "on-stop-calls-wrong", format!("actor {i}: every reference dropped (last of {droppers} handle(s) on another thread), kill() never called; on_stop calls were {stops:?}, expected exactly one with killed=false"));
+                }
                 if !res.is_completed() || res.was_killed() {
-                    return bad("C07", "not-graceful", format!("actor {i}: every reference dropped, no kill; result completed={} killed={}", res.is_completed(), res.was_killed()));
+                    return bad("C05", "result-not-graceful", format!("actor {i}: every reference dropped (last of {droppers} handle(s) on another thread), kill() never called; result completed={} killed={}", res.is_completed(), res.was_killed()));
                 }
                 if stops != vec![false] {
-                    return bad("C07", "not-graceful", format!("actor {i} (on_run {}; last of {droppers} handle(s) dropped on another thread) ended as Completed but on_stop calls were {stops:?}, expected exactly one with killed=false", if run_mode == 1 { "re-arming" } else { "idle" }));
+                    return bad("C04", "on-stop-calls-wrong", format!("actor {i} (on_run {}; last of {droppers} handle(s) dropped on another thread) ended as Completed but on_stop calls were {stops:?}, expected exactly one with killed=false", if run_mode == 1 { "re-arming" } else { "idle" }));
                 }
                 let handled = sh.handled.lock().unwrap().clone();
                 let want: Vec<u32> = std::iter::once(1).chain((0..tells).map(|t| 10 + t)).collect();
@@ -550,8 +583,14 @@ fn stop_race_round(rt: &tokio::runtime::Runtime, rng: &mut Rng, cfg: &mut String
             return bad("C02", "accepted-before-stop-not-handled", format!("tells {:?} returned Ok before any stop() was called; handled {got_early:?}", early_ids[i]));
         }
         let stops = shs[i].on_stop.lock().unwrap().clone();
-        if !res.is_completed() || res.was_killed() || stops != vec![false] {
-            return bad("C07", "not-graceful", format!("stopped actor: completed={} killed={} on_stop calls {stops:?}", res.is_completed(), res.was_killed()));
+        if stops != vec![false] && (!res.is_completed() || res.was_killed()) {
+            also("C04", "on-stop-calls-wrong", format!("actor stopped by {n} threads at once, never killed: on_stop calls {stops:?}, expected exactly one with killed=false"));
+        }
+        if !res.is_completed() || res.was_killed() {
+            return bad("C05", "result-not-graceful", format!("actor stopped by {n} threads at once, never killed: completed={} killed={}", res.is_completed(), res.was_killed()));
+        }
+        if stops != vec![false] {
+            return bad("C04", "on-stop-calls-wrong", format!("actor stopped by {n} threads at once, never killed: on_stop calls {stops:?}, expected exactly one with killed=false"));
         }
     }
     None
@@ -661,9 +700,207 @@ fn ring_round(_rt: &tokio::runtime::Runtime, _rng: &mut Rng, cfg: &mut String) -
 }
 
 // ---------------------------------------------------------------------------------------------
+// weak handles (typed and type-erased) never pin the actor
+// ---------------------------------------------------------------------------------------------
+/// The harness holds the only strong reference of an idle actor that was never sent a message.
+/// 1-3 threads hammer the non-upgrading operations (is_alive, identity, clone) of a weak handle -
+/// the typed ActorWeak or one of the three type-erased weak trait objects - while the harness drops
+/// the strong reference and at once tries to upgrade: that must fail, and the actor must end
+/// gracefully, whichever kind of weak handle is being used elsewhere.
+fn weakpin_round(rt: &tokio::runtime::Runtime, rng: &mut Rng, cfg: &mut String) -> Option<Bad> {
+    use rsactor::{WeakActorControl, WeakAskHandler, WeakTellHandler};
+    let form = rng.below(4) as u8;
+    let threads = 1 + rng.below(3) as usize;
+    let run_mode = rng.below(2) as u8;
+    let form_name = ["ActorWeak", "Box<dyn WeakActorControl>", "Box<dyn WeakTellHandler>", "Box<dyn WeakAskHandler>"][form as usize];
+    *cfg = format!("weakpin:form{form}:threads{threads}:run{run_mode}");
+    let (r, jh, sh, _tx) = spawn_actor(rt, 2, run_mode, 0);
+    let t0 = Instant::now();
+    while !sh.ran.load(Ordering::Acquire) {
+        if t0.elapsed() > Duration::from_secs(10) {
+            return bad("C08", "on-run-never-ran", "on_run was not invoked within 10 s on an idle actor".to_string());
+        }
+        std::thread::yield_now();
+    }
+    let weak = ActorRef::downgrade(&r);
+    let ident = r.identity();
+    let stop = Arc::new(AtomicBool::new(false));
+    let go = Gate::new();
+    let mut hs = vec![];
+    for _ in 0..threads {
+        let (w, stop, go) = (weak.clone(), stop.clone(), go.clone());
+        hs.push(std::thread::spawn(move || -> Result<(), String> {
+            let ctl: Box<dyn WeakActorControl> = (&w).into();
+            let th: Box<dyn WeakTellHandler<Item>> = (&w).into();
+            let ah: Box<dyn WeakAskHandler<Item, u64>> = (&w).into();
+            go.wait();
+            while !stop.load(Ordering::Acquire) {
+                let id = match form {
+                    0 => {
+                        let _ = w.is_alive();
+                        let _ = w.clone();
+                        w.identity()
+                    }
+                    1 => {
+                        let _ = ctl.is_alive();
+                        let _ = ctl.clone_boxed();
+                        ctl.identity()
+                    }
+                    2 => {
+                        let _ = th.as_weak_control().is_alive();
+                        let _ = th.clone_boxed();
+                        th.as_weak_control().identity()
+                    }
+                    _ => {
+                        let _ = ah.as_weak_control().is_alive();
+                        let _ = ah.clone_boxed();
+                        ah.as_weak_control().identity()
+                    }
+                };
+                if id != ident {
+                    return Err(format!("a weak handle reports identity {id}, the actor is {ident}"));
+                }
+            }
+            Ok(())
+        }));
+    }
+    go.release(threads);
+    for _ in 0..rng.below(2000) {
+        std::hint::spin_loop();
+    }
+    drop(r);
+    let up = weak.upgrade();
+    let pinned = up.is_some();
+    drop(up);
+    stop.store(true, Ordering::Release);
+    for h in hs {
+        match h.join() {
+            Ok(Ok(())) => {}
+            Ok(Err(e)) => return bad("C11", "identity-mismatch", e),
+            Err(_) => return bad("C16", "weak-handle-panicked", format!("a thread using {form_name} panicked")),
+        }
+    }
+    if pinned {
+        return bad(if form == 0 { "C11" } else { "C16" }, "weak-handle-pins-actor", format!("the only strong reference of an idle actor (no message ever sent, on_start over) was dropped while {threads} other thread(s) were calling is_alive / identity / clone on a {form_name}; upgrade() right afterwards still returned a live reference - something other than a strong handle was keeping the actor alive"));
+    }
+    match join(rt, jh) {
+        Some(Ok(res)) => {
+            let stops = sh.on_stop.lock().unwrap().clone();
+            if !res.is_completed() || res.was_killed() {
+                return bad("C05", "result-not-graceful", format!("unreferenced actor, never killed: completed={} killed={}", res.is_completed(), res.was_killed()));
+            }
+            if stops != vec![false] {
+                return bad("C04", "on-stop-calls-wrong", format!("unreferenced actor, never killed: on_stop calls {stops:?}"));
+            }
+        }
+        _ => return bad("C07", "did-not-end", format!("the only strong reference was dropped ({form_name} handles in use on {threads} other thread(s)); the actor had not ended 10 s later")),
+    }
+    None
+}
+
+// ---------------------------------------------------------------------------------------------
+// metrics read from other threads while the actor records (metrics builds only)
+// ---------------------------------------------------------------------------------------------
+/// 1-6 reader threads hammer the snapshot and the accessors while the actor handles 1-6 `Work`
+/// messages of generated lengths (the slowest one anywhere in the sequence). Readers: the count
+/// never decreases. At quiescence (actor stopped and joined, readers stopped): count = handlers
+/// entered, avg <= max, max >= the longest time measured inside a handler, snapshot = accessors,
+/// and the same values through a clone and a weak-upgraded handle.
+#[cfg(feature = "metrics")]
+fn metrics_round(rt: &tokio::runtime::Runtime, rng: &mut Rng, cfg: &mut String) -> Option<Bad> {
+    let readers = 1 + rng.below(6) as usize;
+    let msgs = 1 + rng.below(6) as usize;
+    let slow_at = rng.below(msgs as u64) as usize;
+    let slow_us = [300u64, 1000, 3000][rng.below(3) as usize];
+    let lens: Vec<u64> = (0..msgs).map(|i| if i == slow_at { slow_us } else { rng.below(slow_us / 3 + 1) }).collect();
+    *cfg = format!("metrics:readers{readers}:msgs{msgs}:slow{slow_us}us@{slow_at}");
+    let (r, jh, sh, _tx) = spawn_actor(rt, 8, 0, 0);
+    let stop = Arc::new(AtomicBool::new(false));
+    let go = Gate::new();
+    let mut hs = vec![];
+    for _ in 0..readers {
+        let (r2, stop, go) = (r.clone(), stop.clone(), go.clone());
+        hs.push(std::thread::spawn(move || {
+            go.wait();
+            let mut last = 0u64;
+            let mut reads = 0u64;
+            while !stop.load(Ordering::Acquire) {
+                let s = r2.metrics();
+                let c = r2.message_count();
+                let _ = (r2.avg_processing_time(), r2.max_processing_time());
+                reads += 1;
+                for v in [s.message_count, c] {
+                    if v < last {
+                        return Err(format!("message_count went from {last} to {v} as seen by one reader thread"));
+                    }
+                    last = v;
+                }
+            }
+            Ok(reads)
+        }));
+    }
+    go.release(readers);
+    for l in &lens {
+        match rt.block_on(r.ask(Work(*l))) {
+            Ok(_) => {}
+            Err(e) => return bad("C03", "ask-failed-on-live-actor", format!("{e}")),
+        }
+    }
+    let weak = ActorRef::downgrade(&r);
+    let _ = rt.block_on(r.stop());
+    let joined = join(rt, jh);
+    stop.store(true, Ordering::Release);
+    let mut total_reads = 0;
+    for h in hs {
+        match h.join() {
+            Ok(Ok(n)) => total_reads += n,
+            Ok(Err(e)) => return bad("C20", "message-count-decreased", e),
+            Err(_) => return bad("C20", "metrics-read-panicked", "a thread reading metrics panicked".to_string()),
+        }
+    }
+    let _ = total_reads;
+    if !matches!(joined, Some(Ok(_))) {
+        return bad("C07", "did-not-end", "stopped actor did not end".to_string());
+    }
+    let inner = sh.max_inner_ns.load(Ordering::Acquire);
+    let via: Vec<(&str, Option<ActorRef<RaceActor>>)> = vec![("the original handle", Some(r.clone())), ("a clone", Some(r.clone())), ("a weak-upgraded handle", weak.upgrade())];
+    let mut first: Option<(u64, u128, u128)> = None;
+    for (name, hd) in via {
+        let Some(hd) = hd else { return bad("C20", "metrics-unreadable-after-end", format!("{name} could not be obtained after the actor ended although a strong handle is held")) };
+        let s = hd.metrics();
+        let (c, avg, max) = (hd.message_count(), hd.avg_processing_time().as_nanos(), hd.max_processing_time().as_nanos());
+        let ctx = format!("{readers} reader thread(s), handlers of {lens:?} us, read through {name} after the actor ended");
+        if c != msgs as u64 {
+            return bad("C20", "message-count-wrong", format!("message_count={c}, handlers entered={msgs} ({ctx})"));
+        }
+        if avg > max {
+            return bad("C20", "avg-above-max", format!("avg_processing_time {avg} ns > max_processing_time {max} ns ({ctx})"));
+        }
+        if max < inner as u128 {
+            return bad("C20", "max-below-measured", format!("max_processing_time {max} ns < {inner} ns measured inside a handler ({ctx})"));
+        }
+        if s.message_count != c || s.avg_processing_time.as_nanos() != avg || s.max_processing_time.as_nanos() != max {
+            return bad("C20", "snapshot-disagrees", format!("snapshot ({}, {} ns, {} ns) vs accessors ({c}, {avg} ns, {max} ns) ({ctx})", s.message_count, s.avg_processing_time.as_nanos(), s.max_processing_time.as_nanos()));
+        }
+        match first {
+            None => first = Some((c, avg, max)),
+            Some(f) if f != (c, avg, max) => return bad("C20", "handles-disagree", format!("{name} reports ({c}, {avg}, {max}), the original handle {f:?}")),
+            _ => {}
+        }
+    }
+    None
+}
+
+#[cfg(not(feature = "metrics"))]
+fn metrics_round(_rt: &tokio::runtime::Runtime, _rng: &mut Rng, cfg: &mut String) -> Option<Bad> {
+    *cfg = "metrics:skipped-without-metrics-feature".into();
+    None
+}
+
+// ---------------------------------------------------------------------------------------------
 // driver
 // ---------------------------------------------------------------------------------------------
-pub const KINDS: [&str; 5] = ["drop", "burst", "parked", "stop", "ring"];
+pub const KINDS: [&str; 7] = ["drop", "burst", "parked", "stop", "ring", "metrics", "weakpin"];
 
 /// Which experiments the check of a property runs, and which clauses (properties) it reports: a
 /// round that breaks a clause of some *other* property is left to that property's own check.
@@ -671,17 +908,21 @@ pub fn kinds_for(prop: &str) -> &'static [&'static str] {
     match prop {
         "C01" => &["burst", "parked", "drop"],
         "C02" => &["stop", "burst"],
-        "C07" => &["drop", "stop"],
+        "C04" | "C05" => &["drop", "stop"],
+        "C07" => &["drop", "stop", "weakpin"],
+        "C11" | "C16" => &["weakpin"],
         "C09" => &["parked"],
         "C10" => &["parked"],
         "C14" | "C15" => &["ring"],
         "C17" => &["burst", "parked"],
+        "C20" => &["metrics"],
         _ => &[],
     }
 }
 
 fn reports(host: &str, clause: &str) -> bool {
-    host == clause || (host == "C17" && matches!(clause, "C01" | "C02" | "C03" | "C10")) || (host == "C07" && clause == "C01")
+    host == clause || (host == "C17" && matches!(clause, "C01" | "C02" | "C03" | "C10")) || (host == "C07" && matches!(clause, "C01" | "C04" | "C05" | "C11" | "C16"))
+        || (host == "C16" && clause == "C11")
 }
 
 type Sink<'a> = &'a dyn Fn(&str, &str, &str, &str, serde_json::Value) -> String;
@@ -700,6 +941,8 @@ fn run_kind(prop: &str, kind: &'static str, rng_seed: u64, rounds: u32, replay_o
             "burst" => burst_round(&rt, &mut rng, &mut cfg),
             "parked" => parked_round(&rt, &mut rng, &mut cfg),
             "ring" => ring_round(&rt, &mut rng, &mut cfg),
+            "metrics" => metrics_round(&rt, &mut rng, &mut cfg),
+            "weakpin" => weakpin_round(&rt, &mut rng, &mut cfg),
             _ => stop_race_round(&rt, &mut rng, &mut cfg),
         };
         part.evaluations += 1;
@@ -710,6 +953,11 @@ fn run_kind(prop: &str, kind: &'static str, rng_seed: u64, rounds: u32, replay_o
         if part.samples.iter().filter(|s| s["race"]["kind"] == kind).count() < 2 {
             part.samples.push(serde_json::json!({"race": {"kind": kind, "configuration": cfg}}));
         }
+        let extra: Vec<Bad> = ALSO.with(|a| a.borrow_mut().drain(..).collect());
+        let b = match b {
+            Some(b) if !reports(prop, b.prop) => extra.into_iter().find(|x| reports(prop, x.prop)).or(Some(b)),
+            other => other,
+        };
         if let Some(b) = b {
             if !reports(prop, b.prop) {
                 *part.labels.entry(format!("race_round_broke_{}_clause_left_to_its_own_check", b.prop)).or_default() += 1;
@@ -733,6 +981,8 @@ pub fn run(prop: &str, kinds: &[&'static str], seed: u64, rounds: u32, replay_ou
     for (ki, kind) in kinds.iter().enumerate() {
         let mult = match *kind {
             "drop" | "ring" => 10,
+            "weakpin" => 20,
+            "metrics" => 4,
             "stop" => 2,
             "burst" => 3,
             _ => 1,
